@@ -13,6 +13,7 @@ CONSTANTS
   MaxBig = 0
   TornSizes = {2, 6, 9}
   ResyncSet = {0, 1}
+  ReplayEchoes = FALSE
   Weak_SyncNoFsync = FALSE
   Weak_SyncNoFlush = FALSE
   Weak_NoHeadCheck = FALSE
